@@ -604,7 +604,10 @@ def k_committer(fs, template, n, big, done):
                     fs.tpc_abort(t)
                 except Exception:               # noqa: B902
                     pass
-                out.append('raised:%s:%s:%s' % (kind, type(e).__name__, e))
+                src = mine[0] if kind == 'delete' and mine else None
+                out.append('raised:%s:%s:%s' % (kind, type(e).__name__, src[1].hex() if src else e))
+                if src is not None and isinstance(e, POSKeyError):
+                    src[2] = None       # (collected by the pack: created at or before the pack time, unreachable)
         return out
     return f
 
@@ -950,7 +953,12 @@ def run_sched_case(P, tmp, schedule=None):
                     extras = verify_extras(obs, fs, Tb, init_recs, api_out, kdone, txn_dump(fs))
                     for o in (res['results'].get('k') or []):
                         if o.startswith('raised'):
-                            extras.append(('commit-error:%s' % o.split(':')[2], 'storage-level %s' % o))
+                            f = o.split(':')
+                            # deleting an unreachable object created at or before the pack time: gc took it
+                            if f[1] == 'delete' and f[2] == 'POSKeyError' and len(f[3]) == 16 and \
+                                    bytes.fromhex(f[3]) <= Tb:
+                                continue
+                            extras.append(('commit-error:%s' % f[2], 'storage-level %s' % o))
                 if hist_at is not None:
                     want = (60 + P.get('post', 2) - 1,) * 2
                     for o in (res['results'].get('h') or ['missing']):
@@ -1463,8 +1471,10 @@ def run_crash_scenario(ck, P, tier_thorough, only_cut=None):
                     evs[k][1] in ('Data.fs.pack', 'Data.fs') or evs[k][1].endswith('index_tmp')):
                 n = len(evs[k][3])
                 if n > 1:
-                    if tier_thorough and evs[k][1] != 'Data.fs':
+                    if tier_thorough and evs[k][1] != 'Data.fs' and n <= 4096:
                         bs = range(1, n)
+                    elif tier_thorough and evs[k][1] != 'Data.fs':
+                        bs = sorted(set([1, n - 1] + [ck.rng.randrange(1, n) for _ in range(64)]))
                     else:
                         bs = sorted(set([1, n - 1] + [ck.rng.randrange(1, n) for _ in range(2)]))
                     cuts += [(k, b) for b in bs]
@@ -2942,7 +2952,7 @@ def run_case(ck, case):
     import signal
     import traceback
 
-    class CaseTimeout(Exception):
+    class CaseTimeout(BaseException):
         pass
 
     def on_alarm(signum, frame):
